@@ -157,7 +157,7 @@ func c10Query(q string) (obs, rt string) {
 }
 
 // c10SelfAction damages the process' own executable file before the first lookup ($VERIF_C10_SELF):
-// delete | chmod000 | replace-same (new file, same bytes).  It reports whether the file can still be opened.
+// delete | chmod000 | replace-same (new file, same bytes) | replace-other (new file, another program).  It reports whether the file can still be opened.
 func c10SelfAction() string {
 	act := os.Getenv("VERIF_C10_SELF")
 	if act == "" {
@@ -172,6 +172,14 @@ func c10SelfAction() string {
 		err = os.Remove(exe)
 	case "chmod000":
 		err = os.Chmod(exe, 0)
+	case "replace-other":
+		// the file at the executable's path now holds ANOTHER program ($VERIF_C10_OTHER), as after a rebuild while running
+		var b []byte
+		if b, err = os.ReadFile(os.Getenv("VERIF_C10_OTHER")); err == nil {
+			if err = os.Remove(exe); err == nil {
+				err = os.WriteFile(exe, b, 0o755)
+			}
+		}
 	case "replace-same":
 		var b []byte
 		if b, err = os.ReadFile(exe); err == nil {
